@@ -52,7 +52,8 @@ TDecoded == Is("Decoded") /\ Ev.a = fi /\ NextValue /\ l' = l + 1 /\ UNCHANGED r
 TRound == Is("Round") /\ NextSelector /\ l' = l + 1 /\ UNCHANGED run
 TElement == Is("Element") /\ Ev.a = ei + 1 /\ NextElement /\ l' = l + 1 /\ UNCHANGED run
 
-RunByKind(sig) == RunBegin(sig) \/ RunBeginFile(sig) \/ RunEndFile(sig) \/ RunEnd(sig)
+\* the recorded programs write nothing through $ or to $file: every body runs with the write "none"
+RunByKind(sig) == RunBegin(sig, "none") \/ RunBeginFile(sig, "none") \/ RunEndFile(sig, "none") \/ RunEnd(sig, "none")
 TRulePlain ==
   /\ Is("Rule") /\ Ev.s # "P" /\ Ev.s = CurKind /\ Ev.a = ri - 1
   /\ \/ Peek("Raise") /\ Trace[l + 1].s = "exit" /\ RunByKind("exit") /\ l' = l + 2
@@ -68,8 +69,8 @@ TTest ==
 
 TBody ==
   /\ tested
-  /\ \/ Is("Raise") /\ RunBody(Ev.s) /\ l' = l + 1
-     \/ ~Is("Raise") /\ RunBody("none") /\ l' = l
+  /\ \/ Is("Raise") /\ RunBody(Ev.s, "none") /\ l' = l + 1
+     \/ ~Is("Raise") /\ RunBody("none", "none") /\ l' = l
   /\ UNCHANGED run
 
 TConsume == Is("Consume") /\ Ev.s = "next" /\ ConsumeNext /\ l' = l + 1 /\ UNCHANGED run
